@@ -27,7 +27,8 @@ func outcomeDiff(a, b *cs.Outcome) string {
 	if (ea == "") != (eb == "") {
 		return fmt.Sprintf("error on one backend only: %q vs %q", ea, eb)
 	}
-	if (a.Sentinel() || b.Sentinel()) && ea != eb {
+	tooBig := strings.Contains(ea, "Txn is too big") || strings.Contains(eb, "Txn is too big")
+	if (a.Sentinel() || b.Sentinel()) && ea != eb && !tooBig {
 		return fmt.Sprintf("different errors: %q vs %q", ea, eb)
 	}
 	if len(a.Docs) != len(b.Docs) {
@@ -133,7 +134,7 @@ func c15Profile() *sm.Profile {
 			{Kind: "updatebyid", Weight: 5}, {Kind: "update", Weight: 5}, {Kind: "updatefunc", Weight: 5}, {Kind: "delete", Weight: 4}, {Kind: "deletebyid", Weight: 4},
 			{Kind: "createindex", Weight: 6}, {Kind: "dropindex", Weight: 3}, {Kind: "find", Weight: 18}, {Kind: "foreach", Weight: 4}, {Kind: "count", Weight: 4},
 			{Kind: "exists", Weight: 2}, {Kind: "findfirst", Weight: 3}, {Kind: "findbyid", Weight: 3}, {Kind: "listcolls", Weight: 2}, {Kind: "hascoll", Weight: 1},
-			{Kind: "listindexes", Weight: 2}, {Kind: "hasindex", Weight: 1}, {Kind: "createbyquery", Weight: 2}, {Kind: "close", Weight: 1}},
+			{Kind: "listindexes", Weight: 2}, {Kind: "hasindex", Weight: 1}, {Kind: "createbyquery", Weight: 2}, {Kind: "close", Weight: 1}, {Kind: "biginsert", Weight: 1}},
 	}
 }
 
